@@ -655,7 +655,10 @@ def apply_read(ai, st, paths, amt, key, exact=True, depth=0):
                 st.assume(amt.sub(d))
                 if exact:
                     guards.append(d.sub(amt))
-                ai.write_path(st, (p[0], p[1] + (("f", 1),)), IntV(limit.lin.sub(d)), len(paths) > 1, k)
+                lo, hi = st.iv(limit.lin)
+                nl = fresh(st, k + ("lim",), 0, hi)
+                st.assume_eq(nl.add(d).sub(limit.lin))
+                ai.write_path(st, (p[0], p[1] + (("f", 1),)), IntV(nl, None, limit.rng), len(paths) > 1, k)
                 guards += [] if True else []
                 apply_read(ai, st, [(p[0], p[1] + (("f", 0),))], d, k, False, depth + 1)
         elif isinstance(v, StructV) and v.name == "std::io::BufReader":
@@ -670,7 +673,14 @@ def apply_read(ai, st, paths, amt, key, exact=True, depth=0):
                 guards.append(d.sub(amt))
             for i, f in enumerate(v.fields):
                 if isinstance(f, IntV):
-                    ai.write_path(st, (p[0], p[1] + (("f", i),)), IntV(f.lin.add(d)), len(paths) > 1, k + (i,))
+                    # a fresh atom keeps the counter's form small: c' in [c, c + amt]
+                    lo, hi = st.iv(f.lin)
+                    ahi = st.iv(amt)[1]
+                    nc = fresh(st, k + ("cnt", i), max(lo, 0), hi + ahi if hi != INF and ahi != INF else INF)
+                    st.assume(nc.sub(f.lin))
+                    st.assume(f.lin.add(d).sub(nc))
+                    st.assume(nc.sub(f.lin).sub(d))
+                    ai.write_path(st, (p[0], p[1] + (("f", i),)), IntV(nc, None, f.rng), len(paths) > 1, k + (i,))
                 elif isinstance(f, RefV):
                     tv = [ai.read_path(st, q) for q in f.paths]
                     if any(isinstance(x, (CursorV, StructV, RefV)) for x in tv):
@@ -868,6 +878,16 @@ def m_into(ai, fr, st, bb, t, args, key):
     return ret_top(ai, fr, st, t, key), st
 
 
+def m_int_from(ai, fr, st, bb, t, args, key):
+    """Lossless integer conversions (u64::from(u32), ...)."""
+    if len(args) == 1 and isinstance(args[0], IntV) and t.dest.ty.is_int() and t.args[0].ty.is_int():
+        sl, sh = ty_range(t.args[0].ty)
+        dl, dh = ty_range(t.dest.ty)
+        if dl <= sl and sh <= dh:
+            return IntV(args[0].lin, None, (dl, dh)), st
+    return None
+
+
 def m_eq_top(ai, fr, st, bb, t, args, key):
     return IntV(fresh(st, key + ("eq",), 0, 1)), st
 
@@ -967,6 +987,8 @@ def build_models():
     M["core::num::<impl u8>::wrapping_add"] = m_wrapping_add
     M["core::num::<impl usize>::checked_mul"] = m_checked_mul
     M["<T as std::convert::Into<U>>::into"] = m_into
+    M["std::convert::num::from"] = m_int_from
+    M["std::convert::From::from"] = m_int_from
     M["<std::option::Option<T> as std::cmp::PartialEq>::eq"] = m_eq_top
     M["std::cmp::impls::<impl std::cmp::PartialEq<&B> for &A>::eq"] = m_eq_top
     M["crc::crc32::<impl crc::Digest<'a, u32, crc::Table<L>>>::finalize"] = m_ret_top
